@@ -286,17 +286,17 @@ func (P *Program) buildTest(o *Oblig, vc *VC, pl *inputPlan, vals map[string]uin
 				continue
 			}
 			cp := vals[st.path+"#cap"]
-			if ln > 1<<16 {
+			if ln > 1<<21 {
 				return "", fmt.Sprintf("model needs a %d byte slice; skipped", ln)
 			}
-			if cp > 1<<20 || cp < ln {
+			if cp > 1<<22 || cp < ln {
 				cp = ln
 			}
 			var bs []string
-			for k := uint64(0); k < ln; k++ {
+			for k := uint64(0); k < ln && k < replayMaxBytes; k++ {
 				bs = append(bs, strconv.FormatUint(vals[fmt.Sprintf("%s#%d", st.path, k)]&0xff, 10))
 			}
-			fmt.Fprintf(&b, "\t%s = append(make(%s, 0, %d), []byte{%s}...)\n", st.path, st.typ, cp, strings.Join(bs, ","))
+			fmt.Fprintf(&b, "\t%s = make(%s, %d, %d)\n\tcopy(%s, []byte{%s})\n", st.path, st.typ, ln, cp, st.path, strings.Join(bs, ","))
 		case "string":
 			ln, ok := vals[st.path+"#len"]
 			if !ok || ln > 1<<12 {
@@ -459,9 +459,11 @@ func (P *Program) replayModel(o *Oblig, vc *VC, repo string) *ReplayResult {
 	if len(pl.terms) > 0 {
 		got := false
 		var lastOut string
-		for _, bound := range []int64{48, 160, 4096, -1} {
+		for _, bound := range []int64{48, 160, 4096, 70000, -1} {
 			var b strings.Builder
+			vc.renderAllDecls = true
 			b.WriteString(vc.render([]*Oblig{o}, "z3", 20000))
+			vc.renderAllDecls = false
 			b.WriteString("(pop 0)\n")
 			q := b.String()
 			q = strings.Replace(q, "(check-sat)\n(pop 0)\n", "", 1)
@@ -491,6 +493,7 @@ func (P *Program) replayModel(o *Oblig, vc *VC, repo string) *ReplayResult {
 			rest := r.output[strings.Index(r.output, "\n")+1:]
 			vs, ok := parseValues(rest, len(pl.terms))
 			if !ok {
+				os.WriteFile("/tmp/vc-parse-fail.txt", []byte(r.output), 0o644)
 				return &ReplayResult{Note: "could not parse model values"}
 			}
 			for i, mt := range pl.terms {
